@@ -66,19 +66,15 @@ def tree_re(kind, lead):
 
 
 def tree_kind(lead, trail, isfirst, islast, at_start, at_end):
-    left_ok = lead or (isfirst and at_start)
-    right_ok = trail or (islast and at_end)
-    if not (left_ok and right_ok):
-        return None
     if isfirst and at_start and islast and at_end:
         return "only"
     if isfirst and at_start:
         return "first"
     if islast and at_end:
         return "last"
-    if lead and trail:
-        return "middle"
-    return None
+    # anywhere else a tree wildcard stands between two components: it must be delimited by
+    # separators on both sides, whether it absorbed them itself or not
+    return "middle"
 
 
 def ref(g, ctx, at_start, at_end):
@@ -160,3 +156,53 @@ def needed_orbit_chars(asts):
             if it[0] == "lit":
                 chars.update(it[1])
     return "".join(sorted(chars))
+
+
+def impl_kind(own_pos, sup, lead):
+    """The encoding the implementation is KNOWN to choose for a tree wildcard, as a function of its
+    position in its concatenation and of the position of its outermost enclosing branch
+    (superposition). Used only to decide whether the known superposition finding explains an already
+    reproduced counterexample."""
+    if own_pos == "middle":
+        return "middle"
+    if own_pos == "only":
+        return "only"
+    if own_pos == "first":
+        if sup in ("mid", "last"):
+            return "middle"
+        return "first"
+    if sup in ("first", "mid"):
+        return "middle"
+    return "last"
+
+
+def superposition_mismatch(ast):
+    """True iff for some tree wildcard the encoding chosen by position/superposition differs from
+    the one its real context (start / end of the whole path in every unfolding, or in between)
+    calls for -- the known superposition finding."""
+    from gen import nonflag
+    import roles as R
+    found = [False]
+
+    def rec(g, at_start, at_end, sup):
+        items = nonflag(g)
+        n = len(items)
+        for i, it in enumerate(items):
+            isfirst, islast = i == 0, i == n - 1
+            pos = R._position(i, n)
+            if it[0] == "tree":
+                want = tree_kind(it[1], it[2], isfirst, islast, at_start, at_end)
+                got = impl_kind(pos, R._sup_class(sup), it[1])
+                if got != want:
+                    found[0] = True
+            elif it[0] == "alt":
+                for b in it[1]:
+                    rec(b, at_start and isfirst, at_end and islast, sup if sup is not None else pos)
+            elif it[0] == "rep":
+                lo, hi = rep_bounds(it[2])
+                single = hi is not None and hi <= 1
+                rec(it[1], at_start and isfirst and single, at_end and islast and single,
+                    sup if sup is not None else pos)
+    if ast:
+        rec(ast, True, True, None)
+    return found[0]
